@@ -363,7 +363,8 @@ def runOp (p : Prog) (dyn : Dyn) (st : St) (j : Json) : Dyn × St × Json :=
           | some sub => do
             let new := mix o (.dict sub)
             let r ← ev env FUEL .evaluate e new
-            pure (.list [new, r])
+            -- with "v2": [new, value, the input afterwards, an earlier result is unaffected by a later set]
+            if (j.getObjVal? "v2").isOk then pure (.list [new, r, o, .bool true]) else pure (.list [new, r])
           | Option.none => raise (errOther "TypeError")
         | _ => raise (errOther "TypeError")
       match m { st with events := [] } with
